@@ -352,6 +352,12 @@ func (st *ccState) checkErrors(v *vio) {
 		if closed {
 			continue
 		}
+		if st.readErrSeq != 0 && st.readErrSeq < c.retSeq {
+			// the socket's ReadFrom has failed: a client may tell its callers so instead of
+			// letting them wait for responses it can no longer receive
+			st.s.Probe("call-failed-after-the-socket-read-failed")
+			continue
+		}
 		v.add("R6-unexpected-error", "call %d (xid %x) failed with %q although its context had not ended, its id was free, no WriteTo had failed and the client was open: undecodable or foreign datagrams must be dropped without disturbing any call", c.id, c.spec.xid, c.err.Error())
 	}
 }
@@ -399,10 +405,18 @@ func (st *ccState) provenStretches(a *ccCall) []stretch {
 	var out []stretch
 	T := st.cfg.T
 	n := 0
-	for _, tr := range a.tries() {
+	tries := a.tries()
+	for k, tr := range tries {
 		timeout := T << uint(n)
 		n++
 		s := stretch{fromSeq: tr.tx.seq, toSeq: tr.endSeq, toT: tr.tx.t + timeout}
+		// The try has ended, whatever the configured schedule says, by the instant the call
+		// transmits again (a client may retransmit earlier than T·2^k - that is C12's clause and
+		// judged there - and between two of its tries the id may be free): nothing is proven
+		// from that instant on.
+		if k+1 < len(tries) && tries[k+1].tx.t < s.toT {
+			s.toT = tries[k+1].tx.t
+		}
 		// anything that may end the try earlier
 		if a.cancelSeq != 0 && a.cancelSeq < s.toSeq {
 			s.toSeq = a.cancelSeq
@@ -473,6 +487,9 @@ func (st *ccState) refused(c *ccCall) bool {
 			return false
 		}
 	}
+	if st.readErrSeq != 0 && st.readErrSeq < c.retSeq {
+		return false // explained by the failed read (see checkErrors)
+	}
 	return true
 }
 
@@ -529,6 +546,12 @@ func (st *ccState) oracleRefusal(v *vio) {
 		// rank the two errors, and a call that neither transmitted nor was handed anything
 		// shared nothing (what it may have done to the *other* call is judged on that call).
 		if end, ok := st.ctxEnd(b); ok && end <= b.retT && isCtxErr(b.err) && len(b.txs) == 0 && len(b.matches) == 0 {
+			continue
+		}
+		// More generally, "refused with an error rather than sharing responses": a call that
+		// ended in an error without having transmitted or been handed anything has shared
+		// nothing, whatever its reason for refusing (the socket's read has failed, say).
+		if b.err != nil && len(b.txs) == 0 && len(b.matches) == 0 {
 			continue
 		}
 		for _, a := range st.calls {
@@ -698,7 +721,7 @@ func (st *ccState) oracleLiveness(v *vio) {
 					if st.acceptableBy(c, tx) == nil {
 						v.add("T3-error", "call %d: returned a message at the close instant t=%v without an acceptable delivery", c.id, tx)
 					}
-				} else if !p.IsNoResponse(c.err) && !st.refused(c) && !st.hadWriteFailure(c) {
+				} else if !p.IsNoResponse(c.err) && !st.refused(c) && !st.hadWriteFailure(c) && !(st.readErrSeq != 0 && st.readErrSeq < c.retSeq) {
 					// "with the no-response error when the client is closed": demanded of a call that
 					// provably sat in its wait when Close was called (transmitted, timer and context
 					// strictly later, nothing accepted); at a try boundary or context end falling on
